@@ -117,6 +117,11 @@ def r02_2(ctx, run, rule='R02.2'):
                     for x in (t[2], t[3]):
                         if x[0] == 'const' and isinstance(x[1], int):
                             eqs.append(x[1])
+                # `rest.starts_with(b"x0C")`: the bytes of the constant, in place of one comparison per byte
+                if is_call(t, 'slice::starts_with') and c[2] is True and len(t[2]) == 2:
+                    k = deref_all(t[2][1])
+                    if k[0] == 'const' and isinstance(k[1], tuple) and all(isinstance(x, int) for x in k[1]):
+                        eqs.extend(k[1])
             classes.add((steps, ws, tuple(consts), tuple(sorted(eqs))))
             for e in p.calls():
                 if local_callee(e) and canon(e[1]).split('::')[-1] not in ('step', 'step_by', 'error', 'skip_unused'):
@@ -299,6 +304,7 @@ def r02_6_11(ctx, run, rule_cls='R02.6', rule_lex='R02.11'):
     shapes = set()
     bad = []
     cls_bad = []
+    cls_unread = []
     for (s, kind, parsers, okdigits, other, p) in sigs:
         m = NUM_RE.match(s)
         if not m or other:
@@ -314,12 +320,45 @@ def r02_6_11(ctx, run, rule_cls='R02.6', rule_lex='R02.11'):
         ints = [x for x in parsers if 'str::parse::<' in x or 'parse::<u64>' in x or 'parse::<i64>' in x]
         if kind == 'UInt64':
             ok = not neg and not frac and not exp and any('<u64>' in x for x in parsers)
+            shape_ok = not neg and not frac and not exp
         elif kind == 'Int64':
             ok = neg and not frac and not exp and any('<i64>' in x for x in parsers)
+            shape_ok = neg and not frac and not exp
         elif kind == 'Float64':
             ok = any('fast_float2::parse' in x for x in parsers)
+            shape_ok = True
         else:
-            ok = False
+            ok = shape_ok = False
+        if not ok and shape_ok and not parsers and kind == 'Float64':
+            # a double computed by float arithmetic on an integer mantissa (mantissa as f64 / 10^k) is the correctly rounded value only while
+            # the mantissa converts exactly, i.e. has at most 15 decimal digits (10^15 < 2^53 < 10^16); beyond that the cast rounds and the
+            # division rounds again.  Read the digit bound the path puts on the token; 16 or more digits on this path is a violation.
+            fa = [x_ for x_ in subterms(p.ret) if x_[0] == 'bin' and x_[1] in ('Div', 'Mul') and any(y_[0] == 'cast' and 'Float' in str(y_[1]) for y_ in subterms(x_))]
+            if fa:
+                best = None
+                for c in p.conds:
+                    t = c[0]
+                    if t[0] == 'bin' and t[1] in ('Le', 'Lt') and c[2] is True and const_of(t[3]) is not None and any(is_call(x_, 'str::len', 'slice::len', 'len') for x_ in subterms(t[2])):
+                        K = const_of(t[3]) - (1 if t[1] == 'Lt' else 0)
+                        subs = [x_ for x_ in subterms(t[2]) if x_[0] == 'bin' and x_[1] == 'Sub']
+                        exact = any(y_[0] == 'cast' and (('Bool' in str(y_[1])) or (len(y_) > 3 and y_[3] == 'usize' and (deref_all(y_[2])[0] in ('init', 'hav', 'loc') or
+                                    (deref_all(y_[2])[0] == 'const' and isinstance(deref_all(y_[2])[1], bool))))) for x_ in subs for y_ in subterms(x_[3]))
+                        # digits on this path: the tested quantity itself when it already subtracts the point and the sign, else allow for both
+                        d_ = K if (len(subs) >= 2 and exact) else (K - 1 if len(subs) == 1 else K - 2)
+                        best = d_ if best is None else min(best, d_)
+                if best is None:
+                    cls_unread.append(f'{kind} by float arithmetic on an integer mantissa, with no bound on the number of digits read on the path')
+                elif best >= 16:
+                    cls_bad.append(f'Float64 is computed as (integer mantissa as f64) {fa[0][1].lower()} a power of ten for tokens of up to {best} digits: beyond 15 digits the mantissa no longer converts '
+                                   f'exactly (10^15 < 2^53 < 10^16) and the result is rounded twice, so it is not always the correctly rounded double of the literal')
+                else:
+                    cls_unread.append(f'{kind} by float arithmetic on a mantissa of at most {best} digits')
+                continue
+        if not ok and shape_ok and not parsers:
+            # the representation fits the shape of the token, but the value is computed by code this rule does not read (a hand-written
+            # digit accumulation, a helper) instead of str::parse / fast_float2: its value is not decided here
+            cls_unread.append(f'{kind} for sign={neg} fraction={frac} exponent={exp}')
+            continue
         if not ok:
             cls_bad.append(f'{kind} produced for sign={neg} fraction={frac} exponent={exp} via {[x.split("::")[-1] for x in parsers]}')
     unread_h = sorted({o for (_, _, _, _, other, _) in sigs for o in other if o.startswith('helper:')})
@@ -335,7 +374,10 @@ def r02_6_11(ctx, run, rule_cls='R02.6', rule_lex='R02.11'):
         run.violation(rule_lex, b.path, 'number-grammar', f'{len(shapes)} of the 24 grammar shapes (sign × zero/digits × fraction × exponent[sign]) are accepted', loc)
     else:
         run.proved(rule_lex, b.path, 'number-grammar', 'all 24 accepting shapes follow -?(0|[1-9][0-9]*)(\\.[0-9]+)?([eE][+-]?[0-9]+)?: a leading 0 is never followed by a digit, digit runs are non-empty', loc)
-    if cls_bad:
+    if not cls_bad and cls_unread:
+        run.undecided(rule_cls, b.path, 'classification', f'on {len(cls_unread)} accepting path(s) the number is built without str::parse / fast_float2 ({cls_unread[0]}): the representation matches the '
+                      'token shape, the computed value is not decided', loc)
+    elif cls_bad:
         run.violation(rule_cls, b.path, 'classification', '; '.join(sorted(set(cls_bad))[:2]) + ': integers must be u64 (i64 when negative) only without fraction/exponent, everything else the correctly rounded double', loc)
     else:
         run.proved(rule_cls, b.path, 'classification', 'plain non-negative -> parse::<u64>, plain negative -> parse::<i64>, every other form or overflow -> fast_float2::parse::<f64>', loc)
